@@ -54,7 +54,11 @@ func (e *Env) healthyOG(gen any) (any, bool) {
 // NewEnv builds the world, installs the hook program, builds the controller
 // and creates the parent.
 func NewEnv(scn *Scn, f Factory) (*Env, error) {
-	w := NewWorldDiscovery(scn.Cfg.SubresourcesFirst)
+	var extra []*vs.ResourceDef
+	if scn.Cfg.TwinParent != "" {
+		extra = append(extra, TwinDef(scn.Cfg.ParentResource))
+	}
+	w := NewWorldDiscovery(scn.Cfg.SubresourcesFirst, extra...)
 	common.VerifResetSSACache()
 	if scn.Cfg.SSA {
 		w.Sim.TrackManagedFields = true
